@@ -267,7 +267,12 @@ fn damage_sweep(rep: &'static Report, alice: &Party, bob: &Party) {
         label: String,
     }
     let mut bases: Vec<Base> = vec![];
-    let mut plains: Vec<(String, Vec<u8>, Vec<usize>)> = vec![("small16".into(), plaintext(seed ^ 0xe1, 16), vec![16]), ("three-chunks".into(), plaintext(seed ^ 0xe3, 2 * CS + 77), vec![CS, CS, 77])];
+    // "short-chunks": an authentic file whose non-final chunks are short (what an encryptor reading from a pipe produces)
+    let mut plains: Vec<(String, Vec<u8>, Vec<usize>)> = vec![
+        ("small16".into(), plaintext(seed ^ 0xe1, 16), vec![16]),
+        ("three-chunks".into(), plaintext(seed ^ 0xe3, 2 * CS + 77), vec![CS, CS, 77]),
+        ("short-chunks".into(), plaintext(seed ^ 0xe5, 2000 + 3000 + 1 + 4000 + 77), vec![2000, 3000, 1, 4000, 77]),
+    ];
     if rep.tier == Tier::Thorough {
         plains.push(("one-chunk-1000".into(), plaintext(seed ^ 0xe2, 1000), vec![1000]));
         plains.push(("exactly-two-full-chunks".into(), plaintext(seed ^ 0xe4, 2 * CS), vec![CS, CS]));
@@ -395,7 +400,7 @@ fn damage_sweep(rep: &'static Report, alice: &Party, bob: &Party) {
 }
 
 pub fn run(rep: &'static Report) {
-    rep.set_rule("E-PROC product: every listed failure cause of every output-writing command (encrypt, decrypt, password encrypt, password decrypt, key generate) x prior state of the output path {absent, present with 200000 sentinel bytes}; the real CLI runs in a scratch directory and the path is compared before/after. Later-chunk failures must leave exactly the authenticated prefix. distinct non-trivial = distinct (command, cause, prior state) cases");
+    rep.set_rule("E-PROC product: every listed failure cause of every output-writing command (encrypt, decrypt, password encrypt, password decrypt, key generate) x prior state of the output path {absent, present with 200000 sentinel bytes, symbolic link to an existing file}; the real CLI runs in a scratch directory and the path is compared before/after. Later-chunk failures must leave exactly the authenticated prefix. distinct non-trivial = distinct (command, cause, prior state) cases");
     rep.assume("inode and mtime are not compared (the statement speaks of bytes); for trailing data after the final chunk both 'all of P' and 'P without its last chunk' are accepted");
     let (fx, alice, bob) = fixtures(rep.seed);
     let cs = cases(&fx);
@@ -405,6 +410,54 @@ pub fn run(rep: &'static Report) {
         jobs.push((c, None));
         jobs.push((c, Some(&sentinel[..])));
     }
+    // third prior state: the output path is a symbolic link to an existing file
+    let link_jobs: Vec<&Case> = cs.iter().filter(|c| c.out_path == "out.bin").collect();
+    link_jobs.par_iter().for_each(|c| {
+        rep.eval(1);
+        rep.nontrivial(format!("{}-symlink", c.name).as_bytes());
+        let attempt = || -> Result<(), String> {
+            let sc = Scratch::new();
+            for (n, d) in &fx.files {
+                sc.write(n, d);
+            }
+            sc.write("link-target.bin", &sentinel[..1000]);
+            std::os::unix::fs::symlink("link-target.bin", sc.path("out.bin")).map_err(|e| format!("MACHINERY symlink: {}", e))?;
+            let out = proc::run(&c.cmd, &sc.0);
+            out.well_behaved()?;
+            if out.code != Some(1) {
+                return Err(format!("expected the command to fail with exit 1, got {:?}", out.code));
+            }
+            let still_link = std::fs::symlink_metadata(sc.path("out.bin")).map(|m| m.file_type().is_symlink()).unwrap_or(false);
+            let target = sc.read("link-target.bin");
+            match &c.expect_content {
+                None => {
+                    if !still_link {
+                        return Err("the command failed before any authenticated output existed, but the symbolic link at the output path was removed or replaced".into());
+                    }
+                    if target.as_deref() != Some(&sentinel[..1000]) {
+                        return Err("the command failed before any authenticated output existed, but the file the output path links to was changed".into());
+                    }
+                }
+                Some(alts) => {
+                    // later-chunk failure: the path (through the link or replaced by a file) holds exactly the authenticated prefix
+                    let a = sc.read("out.bin").ok_or("a later chunk failed: nothing at the output path")?;
+                    if !alts.iter().any(|x| *x == a) {
+                        return Err(format!("a later chunk failed: the output path holds {} bytes, expected exactly the authenticated prefix", a.len()));
+                    }
+                }
+            }
+            Ok(())
+        };
+        if let Err(e) = attempt() {
+            if e.starts_with("MACHINERY") {
+                crate::report::machinery(&e);
+            }
+            if let Err(e2) = attempt() {
+                rep.violation(&format!("{}/symlink", c.name), json!({"kind":"case-symlink","name":c.name}), format!("{} [output path is a symbolic link to an existing file]: {} — command: {}", c.name, e2, c.cmd.display()));
+            }
+        }
+    });
+    rep.extra("symlink_prior_state_cases", json!(link_jobs.len()));
     jobs.par_iter().for_each(|(c, prior)| {
         rep.eval(1);
         let pn = if prior.is_some() { "present" } else { "absent" };
@@ -456,7 +509,7 @@ pub fn replay(rep: &'static Report, case: &Value) {
     let (fx, _, _) = fixtures(rep.seed);
     let cs = cases(&fx);
     let name = case["name"].as_str().unwrap_or("");
-    if case["kind"] == "case-tty" || case["kind"] == "sweep" {
+    if case["kind"] == "case-tty" || case["kind"] == "sweep" || case["kind"] == "case-symlink" {
         println!("  re-running C13 (interactive cases are part of it)");
         run(rep);
         return;
